@@ -44,12 +44,12 @@ def plan(tier, seed):
   specs = [{'shard': 'keypair-%d' % i, 'part': i, 'parts': 16, 'weight': 9}
            for i in range(16)]
   specs += [{'shard': 'sizeexp', 'n': 300 if q else 3000},
-            {'shard': 'roca-0', 'n': 400 if q else 6000},
-            {'shard': 'roca-1', 'n': 400 if q else 6000},
+            {'shard': 'roca-0', 'n': 800 if q else 6000},
+            {'shard': 'roca-1', 'n': 800 if q else 6000},
             {'shard': 'denylist', 'n': 150 if q else 1500},
             {'shard': 'keypair-custom', 'n': 6 if q else 40, 'weight': 4},
-            {'shard': 'ec-0', 'n': 60 if q else 600},
-            {'shard': 'ec-1', 'n': 60 if q else 600}]
+            {'shard': 'ec-0', 'n': 72 if q else 600},
+            {'shard': 'ec-1', 'n': 72 if q else 600}]
   return specs
 
 
@@ -153,9 +153,8 @@ def run_roca(ctx, spec):
       res = {p: rng.choice(sorted(sub[p])) for p in ROCA_PRIMES}
       what = 'all 39 residues are powers of 65537'
       if kind == 2:
-        cands = [p for p in ROCA_PRIMES if len(sub[p]) < p - 1] if rng.chance(
-            3, 4) else ROCA_PRIMES
-        p = rng.choice(cands)
+        # every one of the 39 primes takes its turn as the failing one
+        p = ROCA_PRIMES[(i // 8) % len(ROCA_PRIMES)]
         out = [r for r in range(p) if r not in sub[p]]
         res[p] = rng.choice(out)
         what = '38 of 39 residues are powers of 65537 (fails at %d with %d)' % (
@@ -169,7 +168,7 @@ def run_roca(ctx, spec):
       res = {p: rng.choice(sorted(sq[p])) for p in VARIANT_PRIMES}
       what = 'square modulo all 48 primes'
       if kind == 4:
-        p = rng.choice(VARIANT_PRIMES)
+        p = VARIANT_PRIMES[(i // 8) % len(VARIANT_PRIMES)]
         res[p] = rng.choice([r for r in range(p) if r not in sq[p]])
         what = 'square modulo 47 of 48 primes (non-residue at %d)' % p
       res[3] = rng.choice([0, 1, 2]) if rng.chance(1, 2) else 2
@@ -413,6 +412,13 @@ def run_ec(ctx, spec):
           x = rng.below(p)                           # random x with P's y
         elif kind == 10:
           x, y = x, 0
+        elif kind == 11 and p % 4 == 3:
+          # the valid point with x == 0 (if b is a square) and its encoding
+          # with x == p: the first is valid, the second out of range
+          yy = pow(mc.b, (p + 1) // 4, p)
+          if yy * yy % p == mc.b % p:
+            x, y = (0, yy) if i % 24 < 12 else (p, yy)
+            ctx.count('x_equals_p_boundary')
         valid = 0 <= x < p and 0 <= y < p and mc.on_curve((x, y))
         pad = rng.choice([0, 0, 1, 4])
         key = gen.ec_key(cid, x, y, pad=pad)
@@ -488,7 +494,7 @@ def finalize(agg, tier):
               'CheckOpensslDenylist', 'CheckKeypairDenylist',
               'CheckValidECKey', 'CheckWeakCurve'):
     need += ['verdict:%s:pos' % chk, 'verdict:%s:neg' % chk]
-  need += ['subgroup_points']
+  need += ['subgroup_points', 'x_equals_p_boundary']
   inc = ['reach counter %s is zero' % k for k in need if not c.get(k)]
   if c.get('covered_seeds_regenerated', 0) != 768 and not agg['violations']:
     inc.append('only %d of 768 covered seeds regenerated' %
